@@ -126,3 +126,16 @@ def ref_reverse_template(row, prefix):
         res.append(ch)
         i += 1
     return "".join(res)
+
+
+def ref_split_raw_rule(raw):
+    """a raw rulebook line = row text followed by %name[=value] parameters, each introduced by a blank (space or TAB)
+    before the '%'.  -> (row with blank runs collapsed, {name: value or "1"})"""
+    m = re.search(r"\s%[a-zA-Z_]\w*", raw)
+    params = {}
+    row = raw
+    if m:
+        row = raw[:m.start()]
+        for pm in re.finditer(r"\s%([a-zA-Z_]\w*)(?:=(\S*))?", raw[m.start():]):
+            params[pm.group(1)] = pm.group(2) if pm.group(2) else "1"
+    return re.sub(r"\s+", " ", row.strip()), params
